@@ -56,6 +56,36 @@ theorem shift_equivariant_init (k : Int) (dist : IdDistributor) (genedb : Option
           rw [this, ih]
       exact aux feats ⟨dist, [], []⟩
 
+/-- the same for the storage built from the reference records of every feature type (`exon_id` values of CDS / codon /
+    UTR records reserved in `used_ids`, `id_dict` filled from the `exon` records) -/
+theorem shift_equivariant_initRecords (k : Int) (dist : IdDistributor) (genedb : Option (List RefRecord)) (chr : Str) :
+    FeatureIdStorage.initRecords dist (genedb.map (List.map (shiftRefRecord k))) chr =
+      shiftIdStorage k (FeatureIdStorage.initRecords dist genedb chr) := by
+  cases genedb with
+  | none => rfl
+  | some recs =>
+    simp only [Option.map_some, FeatureIdStorage.initRecords]
+    split
+    · rfl
+    · have aux : ∀ (l : List RefRecord) (st : FeatureIdStorage),
+          (l.map (shiftRefRecord k)).foldl (FeatureIdStorage.loadRecord chr) (shiftIdStorage k st) =
+            shiftIdStorage k (l.foldl (FeatureIdStorage.loadRecord chr) st) := by
+        intro l
+        induction l with
+        | nil => intro st; rfl
+        | cons f t ih =>
+          intro st
+          simp only [List.map_cons, List.foldl_cons]
+          have : FeatureIdStorage.loadRecord chr (shiftIdStorage k st) (shiftRefRecord k f) =
+              shiftIdStorage k (FeatureIdStorage.loadRecord chr st f) := by
+            obtain ⟨ty, ft⟩ := f
+            simp only [FeatureIdStorage.loadRecord, shiftRefRecord, shiftRefFeature]
+            cases ft.idAttr with
+            | none => rfl
+            | some l => cases l <;> cases ty <;> rfl
+          rw [this, ih]
+      exact aux recs ⟨dist, [], []⟩
+
 /-- **shift_equivariant_getId** — one `get_id` call on the shifted storage for the shifted exon: the same id -/
 theorem shift_equivariant_getId (k : Int) (st : FeatureIdStorage) (e : ExonKey) :
     (shiftIdStorage k st).getId (shiftEK k e) = (st.getId e).map (fun r => (r.1, shiftIdStorage k r.2)) := by
@@ -90,6 +120,24 @@ theorem shift_equivariant_exon_ids (k : Int) (dist : IdDistributor) (genedb : Op
       ((FeatureIdStorage.init dist genedb chr).getIds es).map (·.1) := by
   rw [shift_equivariant_init, shift_equivariant_getIds]
   cases (FeatureIdStorage.init dist genedb chr).getIds es <;> rfl
+
+/-- … and with a reference that carries `exon_id` on records of other feature types as well -/
+theorem shift_equivariant_exon_ids_records (k : Int) (dist : IdDistributor) (genedb : Option (List RefRecord))
+    (chr : Str) (es : List ExonKey) :
+    ((FeatureIdStorage.initRecords dist (genedb.map (List.map (shiftRefRecord k))) chr).getIds (es.map (shiftEK k))).map (·.1) =
+      ((FeatureIdStorage.initRecords dist genedb chr).getIds es).map (·.1) := by
+  rw [shift_equivariant_initRecords, shift_equivariant_getIds]
+  cases (FeatureIdStorage.initRecords dist genedb chr).getIds es <;> rfl
+
+/-- non-vacuity: reference exon `E7`, its CDS with the id `chr1.1` of its own: the novel exon gets `chr1.2` -/
+example :
+    let chr : Str := "chr1".toList
+    let db : List RefRecord := [⟨true, 100, 200, "+".toList, some ["E7".toList]⟩, ⟨false, 120, 180, "+".toList, some ["chr1.1".toList]⟩]
+    let calls : List ExonKey := [(chr, 100, 200, "+".toList), (chr, 300, 400, "+".toList), (chr, 300, 400, "+".toList)]
+    ((FeatureIdStorage.initRecords SimpleIDDistributor.init (some db) chr).getIds calls).map (·.1) =
+      some ["E7".toList, "chr1.2".toList, "chr1.2".toList] ∧
+    ((FeatureIdStorage.initRecords SimpleIDDistributor.init (some (db.map (shiftRefRecord 1000))) chr).getIds
+      (calls.map (shiftEK 1000))).map (·.1) = some ["E7".toList, "chr1.2".toList, "chr1.2".toList] := by decide
 
 /-- non-vacuity: a reference exon keeps its reference id, a novel one gets `chr1.1`, before and after a shift by 1000 -/
 example :
